@@ -192,6 +192,7 @@ func c02Units(t core.Tier) []c02Unit {
 		us = append(us, c02Unit{"in3", 0})
 	}
 	us = append(us, c02Unit{"inv", 0})
+	us = append(us, c02Unit{"del3", 0})
 	return us
 }
 
@@ -280,6 +281,36 @@ func (c02) RunUnit(t core.Tier, u int, r *core.Reporter) {
 				} {
 					for _, st := range sts {
 						c02ExploreOpt(r, p, st, true)
+					}
+				}
+			}
+		}
+	case "del3":
+		// literal key sets under three-operand and/or trees with an opaque
+		// conjunct at every position: DELETE may become a direct removal of
+		// the key set only if no conjunct can reject a listed key
+		k, v, sx := ref.Key, ref.Value, ref.S
+		ks := []*ref.Expr{ref.Bin("=", k(), sx("a")), ref.Bin("=", k(), sx("ab")), ref.Bin("=", sx("b"), k()), ref.In(k(), sx("b"), sx("c")), ref.In(k(), sx("a"))}
+		ops := []*ref.Expr{ref.Bin("=", v(), sx("x")), ref.Bin("!=", v(), sx("x")), ref.Bin("=", ref.Call("upper", k()), sx("A"))}
+		for _, a := range ks {
+			for _, b := range ks {
+				for _, o := range ops {
+					for _, and := range []string{"&", "and"} {
+						for _, or := range []string{"|", "or"} {
+							if (and == "&") != (or == "|") {
+								continue
+							}
+							for _, p := range []*ref.Expr{
+								ref.Bin(or, ref.Bin(and, a.Clone(), o.Clone()), b.Clone()),
+								ref.Bin(or, b.Clone(), ref.Bin(and, a.Clone(), o.Clone())),
+								ref.Bin(or, ref.Bin(and, o.Clone(), a.Clone()), b.Clone()),
+								ref.Bin(and, ref.Bin(or, a.Clone(), b.Clone()), o.Clone()),
+								ref.Bin(or, ref.Bin(or, ref.Bin(and, a.Clone(), o.Clone()), b.Clone()), ref.Bin("=", k(), sx("c"))),
+								ref.Bin(or, ref.Bin(and, a.Clone(), ref.Bin(or, o.Clone(), b.Clone())), b.Clone()),
+							} {
+								two(p)
+							}
+						}
 					}
 				}
 			}
